@@ -121,6 +121,29 @@ func (t *Ty) children() []*Ty {
 	return nil
 }
 
+// MinWidth is a lower bound of the encoded size of any value of the type (Wire.v min_width).
+func (t *Ty) MinWidth() int {
+	switch t.K {
+	case KScalar:
+		switch t.S {
+		case "o":
+			return 24
+		case "s", "m":
+			return 4
+		case "b":
+			return 1
+		}
+		return width(t.S)
+	case KList, KMap:
+		return 4
+	}
+	n := 0
+	for _, m := range t.Mem {
+		n += m.MinWidth()
+	}
+	return n
+}
+
 // Has reports whether some node of the type satisfies p.
 func (t *Ty) Has(p func(*Ty) bool) bool {
 	if p(t) {
@@ -153,11 +176,12 @@ func MetaObjectTy() *Ty { return ObjectRef().Mem[0] }
 // ---------- generation ----------
 
 type GenOpts struct {
-	MaxDepth  int
-	Scalars   string // letters allowed as leaves
-	KeyScalar string // letters allowed as map keys (comparable Go types)
-	MaxWidth  int
-	Template  bool // allow Name<Name> struct names
+	MaxDepth       int
+	Scalars        string // letters allowed as leaves
+	KeyScalar      string // letters allowed as map keys (comparable Go types)
+	MaxWidth       int
+	Template       bool // allow Name<Name> struct names
+	ZeroWidthElems bool // allow lists of void / of empty tuples
 }
 
 var names = []string{"a", "b", "x", "y", "name", "value", "id", "Pos", "f1", "f_2", "data", "k"}
@@ -169,7 +193,11 @@ func GenTy(r *hx.Rng, o GenOpts, depth int) *Ty {
 	}
 	switch r.Intn(4) {
 	case 0:
-		return List(GenTy(r, o, depth+1))
+		e := GenTy(r, o, depth+1)
+		if e.MinWidth() == 0 && !o.ZeroWidthElems {
+			e = Scalar("i")
+		}
+		return List(e)
 	case 1:
 		return Map(Scalar(string(o.KeyScalar[r.Intn(len(o.KeyScalar))])), GenTy(r, o, depth+1))
 	case 2:
